@@ -1,6 +1,7 @@
 import Driver.LogCmd
 import Driver.BloomCmd
 import Driver.TableCmd
+import Driver.IterCmd
 /-
 `raindrv`: one request per line on stdin, one answer per line on stdout.
 Unknown or malformed requests answer `bad-request` (never a default value).
@@ -15,6 +16,7 @@ def dispatch (toks : List String) : String :=
       if cmd.startsWith "log." then logCmd toks
       else if cmd.startsWith "bloom." || cmd.startsWith "filter." then bloomCmd toks
       else if cmd.startsWith "key." || cmd.startsWith "bytes." || cmd.startsWith "block." || cmd.startsWith "table." || cmd.startsWith "lookup." then tableCmd toks
+      else if cmd.startsWith "merge." || cmd.startsWith "dbiter." then iterCmd toks
       else none
     match r with
     | some s => s
